@@ -122,6 +122,7 @@ func cmdCheck(args []string) int {
 	}
 	var results []*eng.FuncResult
 	var undecided []string
+	var noReturn []string
 	for _, ref := range pd.Functions {
 		parts := strings.SplitN(ref, ":", 2)
 		sp := ld.Pkgs[parts[0]]
@@ -142,6 +143,18 @@ func cmdCheck(args []string) int {
 		if res.Err != nil {
 			undecided = append(undecided, fmt.Sprintf("function=%s reason=%q", ref, res.Err.Error()))
 			continue
+		}
+		if !ps.Funcs[parts[1]].Trusted {
+			// vacuity guard: symbolic execution must reach a return on at least one path
+			reached := false
+			for _, ob := range res.Obligations {
+				if ob.Cover && strings.HasSuffix(ob.Name, "/cover:return") {
+					reached = true
+				}
+			}
+			if !reached {
+				noReturn = append(noReturn, ref)
+			}
 		}
 		results = append(results, res)
 	}
@@ -318,6 +331,10 @@ func cmdCheck(args []string) int {
 		}
 		fmt.Printf("VIOLATION property=%s replay=%s obligation=%s%s\n", pd.ID, rp.Path, ob.Name, suffix)
 		exit = 1
+	}
+	for _, v := range noReturn {
+		fmt.Printf("ERROR property=%s vacuous=%s (no path of the function reaches a return: assumptions taken from callee contracts are contradictory, nothing was proved)\n", pd.ID, v)
+		exit = 2
 	}
 	for _, v := range vacuous {
 		fmt.Printf("ERROR property=%s vacuous=%s (contradictory assumptions: nothing was proved)\n", pd.ID, v)
